@@ -82,7 +82,9 @@ func init() {
 // component alphabet: every string is a whole grapheme cluster sequence that
 // does not join with neighbours (no trailing ZWJ, no leading combining mark).
 var c07Alphabet = []string{"=", ">", "-", "+", "#", "[", "]", "|", "世", "界", "▓", "░", "é", "👍", "", "​", "ab", "世a", ">>>", "=>", "╢", "╟", "▌"}
-var c07Texts = []string{"", "a", "name", "downloading", "世界", "é", "👍 ok", "a much longer decorator text that will not fit", "x", "12345678901234567890", "日本語テキスト", " "}
+var c07Texts = []string{"", "a", "name", "downloading", "世界", "é", "👍 ok", "a much longer decorator text that will not fit", "x", "12345678901234567890", "日本語テキスト", " ",
+	// escape sequences inside the text (a coloured fragment followed by plain text, two coloured fragments)
+	"\x1b[31mERR\x1b[0m: something went wrong here", "\x1b[1mab\x1b[0m \x1b[32mcd\x1b[0m and a plain tail"}
 
 func genC07Style(t *rapid.T) c07Style {
 	var s c07Style
@@ -151,6 +153,15 @@ func genC07(t *rapid.T) interface{} {
 	if c.Mode == "frames" {
 		c.Scen = genScenario(t, &profC07Frames)
 		repairQueue(c.Scen)
+		// the terminal is resized (columns only) between frames now and then
+		if rapid.Bool().Draw(t, "resizes") && len(c.Scen.Steps) > 0 {
+			for n := rapid.IntRange(1, 2).Draw(t, "nresize"); n > 0; n-- {
+				at := rapid.IntRange(0, len(c.Scen.Steps)).Draw(t, "resizeat")
+				cols := rapid.OneOf(rapid.IntRange(0, 12), rapid.IntRange(10, 120)).Draw(t, "resizecols")
+				st := engine.Step{Op: "resize", N: int64(c.Scen.Cfg.PtyRows), Bar: cols}
+				c.Scen.Steps = append(c.Scen.Steps[:at], append([]engine.Step{st}, c.Scen.Steps[at:]...)...)
+			}
+		}
 		c.TW = c.Scen.Cfg.PtyCols
 		c.Style.Kind = "bar"
 		return c
@@ -450,13 +461,30 @@ func runC07(ci interface{}) Result {
 			hidden = true
 			r.Classes = append(r.Classes, "frames:clipped")
 		}
+		// terminal width at each render cycle (manual refresh: one cycle per tick)
+		var colsAt []int
+		cols, resized := c.Scen.Cfg.PtyCols, false
+		for _, st := range c.Scen.Steps {
+			switch {
+			case st.Op == "resize":
+				cols, resized = st.Bar, true
+			case st.Op == "tick" || st.Op == "add" && st.Flag:
+				colsAt = append(colsAt, cols)
+			}
+		}
+		if resized {
+			r.Classes = append(r.Classes, "frames:resized")
+		}
 		for k, f := range tr.Frames() {
+			if f.Index >= len(colsAt) {
+				continue
+			}
 			for _, ln := range f.Lines {
-				if ln.Kind == "text" {
-					continue
+				if ln.Kind == "text" || ln.Kind == "ext" {
+					continue // written by the program / by the program's extender: not the library's to cut
 				}
-				if w := c07Width(ln.Raw); w > c.Scen.Cfg.PtyCols {
-					r.Err = fmt.Errorf("frame %d: row %q has display width %d > terminal width %d", k, ln.Raw, w, c.Scen.Cfg.PtyCols)
+				if w := c07Width(ln.Raw); w > colsAt[f.Index] {
+					r.Err = fmt.Errorf("frame %d (render cycle %d): row %q has display width %d > terminal width %d", k, f.Index+1, ln.Raw, w, colsAt[f.Index])
 					return r
 				}
 			}
@@ -553,7 +581,9 @@ func c07RunDecor(c *c07Case) error {
 		if !utf8.ValidString(str) {
 			return fmt.Errorf("decorator returned invalid UTF-8 %q", str)
 		}
-		if got := c07Width(str); got != w {
+		if got := c07Width(str); got != w && !(strings.Contains(c.Decors[0].Text, "\x1b") && w >= got) {
+			// (a text with escape sequences of its own is measured with them: the decorator
+			// then claims more room than it shows, which cannot make a row overflow)
 			return fmt.Errorf("decorator %s reports width %d but its text %q has display width %d", c.Decors[0].Kind, w, str, got)
 		}
 		dd := c.Decors[0]
@@ -725,7 +755,7 @@ func c07RunRow(c *c07Case) (error, bool) {
 	// exact layout for rows whose decorator texts are static (name decorators)
 	static := true
 	for _, d := range c.Decors {
-		if d.Kind != "name" || len(d.Wrap) != 0 {
+		if d.Kind != "name" || len(d.Wrap) != 0 || strings.Contains(d.Text, "\x1b") {
 			static = false
 		}
 	}
